@@ -1,5 +1,6 @@
 import Cjet.Lemmas.DaemonC07Own
 import Cjet.Lemmas.Alloc
+import Cjet.Props.Accept
 /-!
 # C07 — all memory, descriptors and timers are reclaimed
 
@@ -397,5 +398,14 @@ theorem free_returns_to_baseline (P : Params) (hP : P.Ok) (ops : List Alloc.Op) 
 example : ∀ e ∈ (Alloc.run defaultParams Alloc.init exAllocOps).1.live, e.1 ∈ [5, 1, 0] := by decide +kernel
 
 end AllocPart
+
+/-! ### descriptor hygiene of the accept path (linux_io.c): every accepted descriptor is owned by one connection or closed once, on every failure path -/
+
+theorem accept_fd_closed_or_owned_exactly_once : type_of% @Cjet.Props.Accept.fd_closed_or_owned_exactly_once := @Cjet.Props.Accept.fd_closed_or_owned_exactly_once
+theorem accept_fd_discipline_monitor : type_of% @Cjet.Props.Accept.fd_discipline_monitor := @Cjet.Props.Accept.fd_discipline_monitor
+theorem accept_no_leak_of_peer_or_bs : type_of% @Cjet.Props.Accept.no_leak_of_peer_or_bs := @Cjet.Props.Accept.no_leak_of_peer_or_bs
+theorem accept_init_failure_releases_both : type_of% @Cjet.Props.Accept.init_failure_releases_both := @Cjet.Props.Accept.init_failure_releases_both
+theorem accept_start_server_unwinds : type_of% @Cjet.Props.Accept.start_server_unwinds := @Cjet.Props.Accept.start_server_unwinds
+theorem accept_stop_server_closes_listener : type_of% @Cjet.Props.Accept.stop_server_closes_listener := @Cjet.Props.Accept.stop_server_closes_listener
 
 end Cjet.Props.C07
